@@ -380,14 +380,21 @@ def _recorded_command_line(ctx: RuleCtx) -> None:
         if len(stores) != 1:
             raise Undecided(f'{qn}: cmd_line_options stored {len(stores)} times on a path')
         parts = _dict_build(r, stores[0])
-        if not parts or any(p[0] != 'spread' for p in parts) or len(parts) != 2:
+        if not parts:
             raise Undecided(f'{qn}: merged command line built in an unknown way: {stores[0].text}')
-        texts = [norm(p[1]) for p in parts]
-        if D not in texts or texts[0] == texts[1] or D in [t for t in texts if t != D and D in t]:
-            raise Undecided(f'{qn}: merged command line built in an unknown way: {stores[0].text}')
+        # every part is either the current command line or something recorded (items / a comprehension over the file)
+        kinds_: T.List[str] = []
+        for p in parts:
+            k = 'command line' if p[0] == 'spread' and norm(p[1]) == D else 'recorded'
+            if k == 'recorded' and D in norm(p[1] if p[0] == 'spread' else p[2]):
+                raise Undecided(f'{qn}: merged command line built in an unknown way: {stores[0].text}')
+            if not kinds_ or kinds_[-1] != k:
+                kinds_.append(k)
+        if 'command line' not in kinds_:
+            raise Undecided(f'{qn}: the current command line is not part of the merged mapping: {stores[0].text}')
         n += 1
-        if texts[1] != D:
-            ctx.violation(cm, qn, stores[0].src, f'the merged mapping is built as [{short(texts[0], 60)}, then {short(texts[1], 60)}]: the recorded options come last and override the ones '
+        if kinds_[-1] != 'command line':
+            ctx.violation(cm, qn, stores[0].src, f'the merged mapping is built in the order {kinds_}: the recorded options come last and override the ones '
                           f'given on the current command line; reference: recorded first, current command line last', stores[0].src, path=repr(r))
             return
     if n:
